@@ -1,0 +1,149 @@
+//go:build verif
+
+package regexp2
+
+import (
+	"math"
+	"sync/atomic"
+	"time"
+
+	"github.com/dlclark/regexp2/v2/syntax"
+)
+
+// This file only exists in builds with the verif tag. It exposes the seams the
+// external verification harness needs; nothing here is reachable otherwise.
+
+// verifRunnerState counts scan/interpreter steps of the current scan.
+type verifRunnerState struct {
+	steps int64
+}
+
+// VerifStepBudgetExceeded is the panic value raised when one scan performs more
+// steps than the configured budget (deterministic hang detection).
+type VerifStepBudgetExceeded struct{ Steps int64 }
+
+var (
+	verifStepBudget int64
+	verifStepHook   atomic.Value // func()
+)
+
+// VerifSetStepBudget sets the number of steps one scan may take (0 = unlimited).
+func VerifSetStepBudget(n int64) { atomic.StoreInt64(&verifStepBudget, n) }
+
+// VerifSetStepHook installs a function called on every scan/interpreter step.
+func VerifSetStepHook(f func()) { verifStepHook.Store(f) }
+
+func verifScanStart(r *Runner) { r.verif.steps = 0 }
+
+func verifStep(r *Runner) {
+	r.verif.steps++
+	if b := atomic.LoadInt64(&verifStepBudget); b > 0 && r.verif.steps > b {
+		panic(VerifStepBudgetExceeded{Steps: r.verif.steps})
+	}
+	if f, _ := verifStepHook.Load().(func()); f != nil {
+		f()
+	}
+}
+
+func (re *Regexp) verifPrepare(r *Runner, input []rune, textstart int) (stoppos, bump int) {
+	r.timeout = time.Duration(math.MaxInt64)
+	r.ignoreTimeout = true
+	r.debug = false
+	r.Runtextstart = textstart
+	r.Runtext = input
+	r.Runtextend = len(input)
+	stoppos, bump = len(input), 1
+	if re.RightToLeft() {
+		stoppos, bump = 0, -1
+	}
+	verifScanStart(r)
+	r.initMatch(newMatchText(input))
+	return
+}
+
+// VerifNaiveScan attempts the compiled program at every position in scan order
+// starting at scanpos with \G bound to textstart: no string prefix filter, no
+// candidate finder, no minimum-length cut-off, and the bump-along position set
+// by the program is ignored. It returns the number of attempts made.
+func (re *Regexp) VerifNaiveScan(input []rune, textstart, scanpos int) (*Match, int, error) {
+	r := re.getRunner()
+	defer re.putRunner(r)
+	stoppos, bump := re.verifPrepare(r, input, textstart)
+	attempts := 0
+	for pos := scanpos; ; pos += bump {
+		verifStep(r)
+		r.Runtextpos = pos
+		attempts++
+		if err := executeDefault(r); err != nil {
+			return nil, attempts, err
+		}
+		if r.runmatch.matchcount[0] > 0 {
+			return r.tidyMatch(false), attempts, nil
+		}
+		r.Runtrackpos = len(r.runtrack)
+		r.Runstackpos = len(r.runstack)
+		r.runcrawlpos = len(r.runcrawl)
+		if pos == stoppos {
+			r.tidyMatch(true)
+			return nil, attempts, nil
+		}
+	}
+}
+
+// VerifAttemptAt runs the compiled program once, anchored at pos, with \G bound
+// to textstart.
+func (re *Regexp) VerifAttemptAt(input []rune, textstart, pos int) (*Match, error) {
+	r := re.getRunner()
+	defer re.putRunner(r)
+	re.verifPrepare(r, input, textstart)
+	r.Runtextpos = pos
+	if err := executeDefault(r); err != nil {
+		return nil, err
+	}
+	if r.runmatch.matchcount[0] > 0 {
+		return r.tidyMatch(false), nil
+	}
+	r.tidyMatch(true)
+	return nil, nil
+}
+
+// VerifCandidate runs only the candidate-position search (the step the scan loop
+// performs before each attempt) from pos and reports the candidate it proposes.
+func (re *Regexp) VerifCandidate(input []rune, textstart, pos int) (cand int, found bool) {
+	r := re.getRunner()
+	defer re.putRunner(r)
+	re.verifPrepare(r, input, textstart)
+	r.Runtextpos = pos
+	found = findFirstCharDefault(r)
+	cand = r.Runtextpos
+	r.tidyMatch(true)
+	return
+}
+
+// VerifCode returns the compiled program.
+func (re *Regexp) VerifCode() *syntax.Code { return re.code }
+
+// VerifQuickCode returns the bool-only program (nil if there is none).
+func (re *Regexp) VerifQuickCode() *syntax.Code { return re.quickCode }
+
+// VerifHasStringPrefixFilter reports whether string entry points pre-filter on raw bytes.
+func (re *Regexp) VerifHasStringPrefixFilter() bool { return re.stringPrefixFilter != nil }
+
+// VerifStackStats describes the stacks of the runner used by VerifScanStats.
+type VerifStackStats struct {
+	TrackCap, StackCap, CrawlCap int
+	TrackCount                   int
+	Steps                        int64
+}
+
+// VerifScanStats runs the ordinary scan (all acceleration on) on a runner taken
+// from the pool and reports the capacities of that runner's stacks afterwards.
+func (re *Regexp) VerifScanStats(input []rune, textstart int) (m *Match, st VerifStackStats, err error) {
+	r := re.getRunner()
+	defer func() {
+		st = VerifStackStats{TrackCap: len(r.runtrack), StackCap: len(r.runstack), CrawlCap: len(r.runcrawl), TrackCount: r.runtrackcount, Steps: r.verif.steps}
+		re.putRunner(r)
+	}()
+	m, err = r.scan(input, newMatchText(input), textstart, -1, false, re.MatchTimeout)
+	return
+}
